@@ -133,11 +133,16 @@ Inductive story_step (dfn : byte -> bool) : list bstr -> cmd -> list bstr -> Pro
     new = acts_of (f (print_story cur)) ->
     wf_story dfn new = true ->
     story_step dfn cur (CEdit f) new
+| SS_cast cur more : story_step dfn cur (CCast more) cur
 | SS_entails cur c t a : story_step dfn cur (CEntails c t a) cur
 | SS_mstart cur c m : story_step dfn cur (CMoodStart c m) cur
 | SS_mend cur c m : story_step dfn cur (CMoodEnd c m) cur.
 
-(** * Meaning of the scene definitions *)
+(** * Meaning of the scene definitions
+
+    `every <role>` means the actors that play the role WHEN THE CLAUSE IS READ:
+    a later `cast` section does not change scenes already defined, and the
+    actors it hires are entailed by every later `every <role>` clause. *)
 Definition actors_of (cs : cast) (t : target) : list bstr :=
   match t with
   | TActor a => [a]
@@ -147,6 +152,7 @@ Definition actors_of (cs : cast) (t : target) : list bstr :=
 Fixpoint den_entails (cs : cast) (cmds : list cmd) (c : byte) : list (bstr * list bstr) :=
   match cmds with
   | [] => []
+  | CCast more :: tl => den_entails (cs ++ more) tl c        (* hired from here on *)
   | CEntails c' t acts :: tl =>
       (if Byte.eqb c' c then map (fun a => (a, acts)) (actors_of cs t) else []) ++ den_entails cs tl c
   | _ :: tl => den_entails cs tl c
